@@ -339,7 +339,7 @@ void replay_config_inproc(ReplayCtx& ctx) {
       Model m;
       int step = 0;
       st.hist.clear();
-      if (ctx.trace) std::fprintf(ctx.trace, "{\"op\":\"reset\",\"cfg\":%s}\n", bj::serialize(bj::value(st.cfg)).c_str());
+      if (ctx.trace) { std::fprintf(ctx.trace, "{\"op\":\"reset\",\"cfg\":%s}\n", bj::serialize(bj::value(st.cfg)).c_str()); std::fflush(ctx.trace); }
       for (auto& sv : path) {
         const bj::object& s = sv.as_object();
         crash_ctx().where = st.cfg + " g=" + std::to_string(gi) + " path u=" + std::to_string(u) + " step=" + std::to_string(step);
@@ -357,6 +357,7 @@ void replay_config_inproc(ReplayCtx& ctx) {
             ev["obs"] = m.observe();
             if (!san_report().empty()) { ev["sanitizer"] = san_report().substr(0, 300); san_report().clear(); }
             std::fprintf(ctx.trace, "%s\n", bj::serialize(canon(bj::value(ev))).c_str());
+            std::fflush(ctx.trace);   // a crash in a later step must not leave half a line in the file
           }
           st.hist.emplace_back(s.at("act").as_object().at("op").as_string());
           ++step;
